@@ -155,7 +155,11 @@ def _run_case(case, ctx):
             elif form == "dict":
                 k = int(rs.randint(1, order + 1))
                 sel = sorted(rs.choice(order, size=k, replace=False).tolist())
-                opts["non_negative"] = {m: True for m in sel}
+                # modes counted from the end are accepted as keys (they index the per-mode table like any Python index)
+                neg_keys = bool(rs.rand() < 0.3)
+                opts["non_negative"] = {(m - order if (neg_keys and rs.rand() < 0.7) else m): True for m in sel}
+                if neg_keys:
+                    which += "-negative-keys"
                 declared = sel
             elif form == "list":
                 opts["non_negative"] = [True] * order
@@ -282,6 +286,37 @@ def _run_case(case, ctx):
             if _neg(w):
                 bad("weights", w)
                 return
+    if algo in ("nn_parafac", "nn_parafac_hals", "constrained_parafac", "nn_tucker", "nn_tucker_hals") and rs.rand() < 0.2:
+        # history on one estimator object: fitted on a tensor of one order with the all-modes default, then on a tensor of another
+        # order (and other sizes); every mode of the second tensor is declared non-negative as well
+        from tensorly import decomposition as D
+        from tensorly.decomposition import _tucker
+        Cls = getattr(D, decomp.CLASS_OF[algo], None) or getattr(_tucker, decomp.CLASS_OF[algo])
+        o1, o2 = (2, 3) if rs.rand() < 0.35 else ((3, 4) if rs.rand() < 0.6 else (4, 3))
+        kw = {"n_iter_max": int(gen.choice(rs, [1, 3, 8])), "init": gen.choice(rs, ["svd", "random"]), "random_state": seed}
+        if algo == "constrained_parafac":
+            kw["non_negative"] = True
+        rk = int(rs.randint(1, 4))
+        try:
+            est = Cls(rk, **kw) if not algo.startswith("nn_tucker") else Cls(rank=rk, **kw)
+        except TypeError:
+            est = None
+        if est is not None:
+            ctx.count("estimator_refit_other_order/%s" % algo)
+            T1 = np.abs(rs.standard_normal([int(rs.randint(2, 5)) for _ in range(o1)])).astype(dt)
+            T2 = rs.standard_normal([int(rs.randint(2, 5)) for _ in range(o2)]).astype(dt)     # signed: an unconstrained update shows
+            with warnings.catch_warnings():
+                warnings.simplefilter("ignore")
+                est.fit_transform(T1)
+                out2 = est.fit_transform(T2)
+            d2 = decomp.snapshot(out2[0] if (type(out2) is tuple and len(out2) == 2 and isinstance(out2[1], list)) else out2)
+            parts = list(d2[1]) + ([d2[0]] if algo.startswith("nn_tucker") else [])
+            for f in parts:
+                ctx.count("arrays_checked")
+                if _neg(f):
+                    ctx.violation("C10:%s:negative-factor:estimator-refit-order-%d-then-%d" % (algo, o1, o2), "estimator fitted on an order-%d tensor and then on an order-%d tensor returned a "
+                                  "negative/NaN entry (min %r) although every mode is declared non-negative" % (o1, o2, float(np.nanmin(np.asarray(f)))), {"desc": desc, "orders": [o1, o2]})
+                    return
     if which.startswith("nn_modes+fixed") and algo == "nn_parafac_hals":
         # history: the caller keeps its nn_modes container and calls again without fixed modes: the declaration still stands
         o2 = {k: v for k, v in opts.items() if k != "fixed_modes"}
